@@ -33,7 +33,13 @@ def mw_case(draw, broker):
             for _ in range(draw(st.integers(1, 3))):
                 names = OP_ARGS[op] + (["result"] if phase == "after" else [])
                 params = [n for n in names if draw(st.booleans())]
-                subs.append({"signal": f"{phase}_{op}", "params": params, "async": draw(st.booleans()),
+                # parameters without a default: if the signal does not carry one of them the subscriber cannot even be
+                # called - that is just one more misbehaving subscriber and must not disturb the operation either
+                required = [n for n in params if draw(st.integers(0, 3)) == 0]
+                if draw(st.integers(0, 7)) == 0:
+                    required.append("not_a_signal_argument")
+                    params = params + ["not_a_signal_argument"]
+                subs.append({"signal": f"{phase}_{op}", "params": params, "required": required, "async": draw(st.booleans()),
                              "behave": draw(st.sampled_from(["ok", "ok", "raise", "sleep", "return-garbage"]))})
     return {"broker": broker, "seed": draw(st.integers(0, 999)), "subs": subs,
             "style": {op: draw(st.sampled_from(["pos", "kw", "mixed"])) for op in OP_ARGS},
@@ -41,7 +47,9 @@ def mw_case(draw, broker):
 
 
 def make_subscriber(spec: dict, log: list, label: str, loop) -> Any:
-    params = ", ".join(f"{p}=MISSING" for p in spec["params"])
+    req = [p for p in spec["params"] if p in spec.get("required", [])]
+    opt = [p for p in spec["params"] if p not in spec.get("required", [])]
+    params = ", ".join(req + [f"{p}=MISSING" for p in opt])
     body = f"    LOG.append(({label!r}, {spec['signal']!r}, {{{', '.join(repr(p) + ': ' + p for p in spec['params'])}}}, STATE()))\n"
     if spec["behave"] == "raise":
         body += "    raise RuntimeError('subscriber failed')\n"
@@ -140,7 +148,8 @@ async def _script(loop, case, out: Outcome, with_subs: bool):
         elif step == "enqueue":
             await do("enqueue", b, "enqueue", ["key", "payload", "params"], [key, '{"x": 1}', params])
         elif step == "enqueue2":
-            await do("enqueue", b, "enqueue", ["key", "payload", "params"], [key2, '{"x": 2}', params])
+            # defaults left to the callee: the signal then carries only what was actually passed
+            await do("enqueue", b, "enqueue", ["key", "payload"], [key2, '{"x": 2}'])
         elif step == "ack_unknown_queue":
             if case["broker"] == "mem":  # an operation that raises: no after-signal may follow
                 await do("ack", b, "ack", ["key"], [RoutingKey(topic="act", queue="no_such_queue", priority=5, id_="zz")])
@@ -255,7 +264,10 @@ def run(case: dict) -> Outcome:
             exp_ops = None  # the worker performs several wrapped operations; checked below for actor_run only
             ar_b = [x for x in seg if x[1] == "before_actor_run"]
             ar_a = [x for x in seg if x[1] == "after_actor_run"]
-            nb, na = len(subs_by_signal.get("before_actor_run", [])), len(subs_by_signal.get("after_actor_run", []))
+            ar_args = set(OP_ARGS["actor_run"])
+            nb = len([s_ for s_ in subs_by_signal.get("before_actor_run", []) if all(r in ar_args for r in s_.get("required", []))])
+            na = len([s_ for s_ in subs_by_signal.get("after_actor_run", [])
+                      if all(r in ar_args | {"result"} for r in s_.get("required", []))])
             if len(ar_b) != nb or len(ar_a) != na:
                 out.v("actor-run-signals", f"one actor run: before_actor_run reached {len(ar_b)} of {nb} subscribers, after_actor_run "
                       f"{len(ar_a)} of {na}")
@@ -267,6 +279,9 @@ def run(case: dict) -> Outcome:
             if c.get("cancelled") and phase == "after":
                 emitted = False
             got_calls = [x for x in seg if x[1] == sig]
+            if emitted:
+                have = set(c["actual"]) | ({"result"} if phase == "after" else set())
+                want_subs = [s_ for s_ in want_subs if all(r in have for r in s_.get("required", []))]
             if emitted and len(got_calls) != len(want_subs):
                 out.v("signal-count", f"{op}: {sig} reached {len(got_calls)} subscribers, {len(want_subs)} are subscribed "
                       f"(exactly one emission expected)", phase=phase)
